@@ -35,4 +35,34 @@ LEMMAS = {
       ('ranks-start-at-1', 'implies(len(pref) > 0, ranks[0] == 1)'),
       ('ranks-increase-by-one-between-groups', 'forall(j, 0, len(pref) - 1, implies(ties[j] == 0, ranks[j+1] == ranks[j] + 1))'),
     ]),
+
+ # ---- C17: a sum of positive terms is positive
+ 'C17/sum-positive': dict(
+    vars={'d': ('list', 'real'), 'n': 'int'},
+    hyps=['n >= 1', 'forall(j, 0, n, d[j] > 0)'],
+    induct=('m', '1', 'n', 'SumR(j, m, d[j]) > 0')),
+ # ---- C17: dividing every term by S divides the sum by S
+ 'C17/scaled-sum': dict(
+    vars={'d': ('list', 'real'), 'r': ('list', 'real'), 'n': 'int', 'S': 'real'},
+    hyps=['n >= 0', 'forall(j, 0, n, r[j] * S == d[j])'],
+    induct=('m', '0', 'n', 'SumR(j, m, r[j]) * S == SumR(j, m, d[j])')),
+
+ # ---- C08: the block sizes of create_project_lecturers / create_quotas are the even spreading
+ 'C08/shares': dict(
+    vars={'n2': 'int', 'n3': 'int'},
+    defs={'P': (['k'], 'k * (n2 // n3) + min(k, n2 % n3)'),
+          'share': (['k'], 'n2 // n3 + ite(k < n2 % n3, 1, 0)')},
+    hyps=['n2 >= 0', 'n3 >= 1'],
+    goals=[('block-size-is-share', 'forall(k, 0, n3, P(k+1) - P(k) == share(k))'),
+           ('starts-at-0', 'P(0) == 0'),
+           ('total', 'P(n3) == n2'),
+           ('larger-shares-first', 'forall(k, 0, n3 - 1, share(k) >= share(k+1))'),
+           ('spread-at-most-one', 'forall(k, 0, n3, forall(l, 0, n3, share(k) - share(l) <= 1))'),
+           ('blocks-increase', 'forall(k, 0, n3, P(k) <= P(k+1))')]),
+ # ---- C08: spreading is monotone in the total, so lower <= target <= upper holds pointwise
+ 'C08/spread-monotone': dict(
+    vars={'n': 'int', 'a': 'int', 'b': 'int'},
+    defs={'share': (['s', 'k'], 's // n + ite(k < s % n, 1, 0)')},
+    hyps=['n >= 1', '0 <= a', 'a <= b'],
+    goals=[('pointwise', 'forall(k, 0, n, share(a, k) <= share(b, k))')]),
 }
